@@ -31,7 +31,7 @@ def run(ctx):
     # ---- R1 operand scan ---------------------------------------------------------------------------------
     pa = ctx.fn("R1", C.PARSE_ARGS)
     if pa is not None:
-        pl = pa.locals_named("paths")
+        pl = C.find_local(pa, "paths", ty="std::vec::Vec<std::string::String>")
         if not pl:
             ctx.missing("R1", "paths local of parse_args")
         else:
@@ -74,7 +74,7 @@ def run(ctx):
                     kinds.append("operand")
                     ctx.ob("R1", "operand-verbatim", ok, "an operand is stored as %s; oracle: args[i] copied unchanged (no trimming of slashes, no normalisation)" % o.fmt(), fn=pa, where=prim.site(pa, b), how="provenance slice")
                     # index advances by exactly one after each push, inside the loop
-                    il = pa.locals_named("i")
+                    il = C.scan_index(pa)
                     if il:
                         incs = []
                         for bb, kind, obj in prim.local_defs(pa).get(il[0], []):
@@ -155,9 +155,9 @@ def run(ctx):
     # ---- R4 -files0-from ------------------------------------------------------------------------------------------
     pf = ctx.fn("R4", M + "parse_files0_args")
     if pf is not None:
-        bl = pf.locals_named("buffer")
-        sl = pf.locals_named("buffer_split")
-        gl = pf.locals_named("string_segments")
+        bl = C.find_local(pf, "buffer", ty="std::vec::Vec<u8>")
+        sl = C.find_local(pf, "buffer_split", ty="std::vec::Vec<&[u8]>")
+        gl = C.find_local(pf, "string_segments", ty="std::vec::Vec<std::string::String>")
         if not (bl and sl and gl):
             ctx.missing("R4", "locals buffer/buffer_split/string_segments of parse_files0_args (role anchors)")
         else:
